@@ -38,7 +38,7 @@ impl Tier {
 }
 
 /// A failed check: `sig` is the stable signature used by the known-findings file.
-#[derive(Debug, Clone)]
+#[derive(Debug, Clone, Serialize, Deserialize)]
 pub struct Fail {
     pub sig: String,
     pub msg: String,
@@ -66,7 +66,7 @@ macro_rules! ensure {
 
 /// Per-section coverage counters. All methods are no-ops once `frozen` (set at the first
 /// failure, because proptest re-enters the closure while shrinking).
-#[derive(Default)]
+#[derive(Default, Serialize, Deserialize)]
 pub struct Cov {
     pub frozen: bool,
     pub evaluations: u64,
@@ -78,6 +78,7 @@ pub struct Cov {
     pub notes: BTreeMap<String, Value>,
     /// running maxima (e.g. largest observed deviation from the reference, for calibration)
     pub maxima: BTreeMap<String, f64>,
+    #[serde(default)]
     sample_budget: usize,
 }
 
@@ -216,7 +217,28 @@ pub struct Ctx {
     pub rule: String,
     pub replay: Option<ReplayFile>,
     pub replay_hit: bool,
+    /// child-process mode: run only this (section, shard index, cases) and print the result
+    pub shard: Option<(String, u32, u32)>,
     start: Instant,
+}
+
+/// what a shard child process prints on stdout (one line, prefixed `SHARD-RESULT `)
+#[derive(Serialize, Deserialize)]
+struct ShardResult {
+    cov: Cov,
+    fail: Option<(Value, Fail)>,
+    known_seen: Vec<String>,
+}
+
+/// Runs `f` on a worker thread of the global rayon pool. burn's ndarray backend parallelises its
+/// kernels with rayon; called from a non-pool thread every tiny kernel is a cross-thread hand-off
+/// (futex wake + wait), called from a pool thread it runs inline. With one-thread pools in
+/// separate processes the samplers scale linearly over the 16 cores (measured: 60 us vs 1-3 ms
+/// per leapfrog step).
+pub fn in_pool<R: Send>(f: impl FnOnce() -> R + Send) -> R {
+    let mut out = None;
+    rayon::scope(|s| s.spawn(|_| out = Some(f())));
+    out.expect("pool task did not run")
 }
 
 thread_local! {
@@ -283,6 +305,7 @@ impl Ctx {
             rule: String::new(),
             replay: None,
             replay_hit: false,
+            shard: None,
             start: Instant::now(),
         }
     }
@@ -370,7 +393,7 @@ impl Ctx {
         make_strategy: impl Fn() -> BoxedStrategy<C> + Sync,
         check: F,
     ) where
-        C: Serialize + DeserializeOwned + std::fmt::Debug + Clone + Send + 'static,
+        C: Serialize + DeserializeOwned + std::fmt::Debug + Clone + Send + Sync + 'static,
         F: Fn(&C, &mut Cov) -> CheckResult + Sync,
     {
         // ---- replay mode: only the matching section runs, on the stored case ----
@@ -388,7 +411,10 @@ impl Ctx {
             };
             let mut cov = Cov::new();
             cov.evaluations += 1;
-            let r = run_checked(&check, &case, &mut cov);
+            let r = {
+                let (check, case, cov) = (&check, &case, &mut cov);
+                in_pool(move || run_checked(check, case, cov))
+            };
             if let Err(f) = r {
                 self.report_failure(name, &case, &f);
             } else {
@@ -401,6 +427,34 @@ impl Ctx {
                 rule: rule.into(),
             });
             return;
+        }
+
+        let known_sigs: Vec<String> = self
+            .known
+            .known
+            .iter()
+            .filter(|k| k.property == self.id)
+            .map(|k| k.signature.clone())
+            .collect();
+
+        // ---- child-process mode: one shard of one section ----
+        if let Some((sec, idx, n)) = self.shard.clone() {
+            if sec != name {
+                return;
+            }
+            let seed = self.section_seed(name, idx as u64);
+            let stop = std::sync::atomic::AtomicBool::new(false);
+            let (cov, fail, known_seen) = {
+                let (check, make_strategy, known_sigs, stop) = (&check, &make_strategy, &known_sigs, &stop);
+                in_pool(move || run_shard(n, seed, make_strategy(), check, known_sigs, stop))
+            };
+            let res = ShardResult {
+                cov,
+                fail: fail.map(|(c, f)| (serde_json::to_value(&c).unwrap_or(Value::Null), f)),
+                known_seen,
+            };
+            println!("SHARD-RESULT {}", serde_json::to_string(&res).unwrap());
+            std::process::exit(0);
         }
 
         let mut total = Cov::new();
@@ -427,47 +481,80 @@ impl Ctx {
                 };
                 total.evaluations += 1;
                 total.class("regress-file");
-                if let Err(f) = run_checked(&check, &case, &mut total) {
+                let r = {
+                    let (check, case, total) = (&check, &case, &mut total);
+                    in_pool(move || run_checked(check, case, total))
+                };
+                if let Err(f) = r {
                     self.report_failure(name, &case, &f);
                 }
             }
         }
 
-        // ---- generated cases ----
+        // ---- generated cases: one child process per shard (see `in_pool`) ----
         let shards = shards.max(1).min(cases.max(1));
         let per = cases / shards;
         let extra = cases % shards;
-        let seeds: Vec<[u8; 32]> = (0..shards)
-            .map(|s| self.section_seed(name, s as u64))
-            .collect();
-        let known_sigs: Vec<String> = self
-            .known
-            .known
-            .iter()
-            .filter(|k| k.property == self.id)
-            .map(|k| k.signature.clone())
-            .collect();
+        let inproc = std::env::var("VERIF_INPROC").is_ok();
+        let mut results: Vec<(Cov, Option<(Value, Fail)>, Vec<String>)> = vec![];
+        if inproc {
+            let stop = std::sync::atomic::AtomicBool::new(false);
+            for sh in 0..shards {
+                let n = per + if sh < extra { 1 } else { 0 };
+                let seed = self.section_seed(name, sh as u64);
+                let (cov, fail, ks) = {
+                    let (check, make_strategy, known_sigs, stop) = (&check, &make_strategy, &known_sigs, &stop);
+                    in_pool(move || run_shard(n, seed, make_strategy(), check, known_sigs, stop))
+                };
+                results.push((cov, fail.map(|(c, f)| (serde_json::to_value(&c).unwrap_or(Value::Null), f)), ks));
+            }
+        } else {
+            let exe = std::env::current_exe().expect("current_exe");
+            let mut children = vec![];
+            for sh in 0..shards {
+                let n = per + if sh < extra { 1 } else { 0 };
+                let child = std::process::Command::new(&exe)
+                    .arg(&self.id)
+                    .arg("--tier")
+                    .arg(self.tier.name())
+                    .arg("--shard")
+                    .arg(name)
+                    .arg(sh.to_string())
+                    .arg(n.to_string())
+                    .env("VERIF_SEED", self.seed.to_string())
+                    .env("VERIF_DIR", &self.verif_dir)
+                    .env("RAYON_NUM_THREADS", "1")
+                    .stdin(std::process::Stdio::null())
+                    .stdout(std::process::Stdio::piped())
+                    .stderr(std::process::Stdio::inherit())
+                    .spawn();
+                match child {
+                    Ok(c) => children.push(c),
+                    Err(e) => {
+                        eprintln!("INFRASTRUCTURE: cannot spawn shard process: {e}");
+                        std::process::exit(2);
+                    }
+                }
+            }
+            for (sh, c) in children.into_iter().enumerate() {
+                let out = c.wait_with_output().expect("wait for shard");
+                let txt = String::from_utf8_lossy(&out.stdout);
+                let line = txt.lines().find(|l| l.starts_with("SHARD-RESULT "));
+                match line.and_then(|l| serde_json::from_str::<ShardResult>(&l["SHARD-RESULT ".len()..]).ok()) {
+                    Some(r) => results.push((r.cov, r.fail, r.known_seen)),
+                    None => {
+                        eprintln!(
+                            "INFRASTRUCTURE: shard {sh} of section {name} ended without a result (status {:?}); its output:\n{}",
+                            out.status.code(),
+                            txt.lines().rev().take(15).collect::<Vec<_>>().join("\n")
+                        );
+                        std::process::exit(2);
+                    }
+                }
+            }
+        }
 
-        let stop = std::sync::atomic::AtomicBool::new(false);
-        let results: Vec<(Cov, Option<(C, Fail)>, Vec<String>)> = std::thread::scope(|sc| {
-            let handles: Vec<_> = (0..shards)
-                .map(|s| {
-                    let n = per + if s < extra { 1 } else { 0 };
-                    let seed = seeds[s as usize];
-                    let check = &check;
-                    let make_strategy = &make_strategy;
-                    let known_sigs = &known_sigs;
-                    let stop = &stop;
-                    sc.spawn(move || run_shard(n, seed, make_strategy(), check, known_sigs, stop))
-                })
-                .collect();
-            handles
-                .into_iter()
-                .map(|h| h.join().expect("shard thread panicked outside a check"))
-                .collect()
-        });
-
-        let mut first_fail: Option<(C, Fail)> = None;
+        let mut first_fail: Option<(Value, Fail)> = None;
         for (cov, fail, known_seen) in results {
             total.merge(cov);
             for sig in known_seen {
@@ -636,7 +723,20 @@ where
         if !c.frozen {
             c.evaluations += 1;
         }
+        let slow_log = std::env::var("VERIF_SLOW_MS").ok().and_then(|v| v.parse::<u128>().ok());
+        if slow_log.is_some() && std::env::var("VERIF_SLOW_PRE").is_ok() {
+            eprintln!("[case-start] {}", serde_json::to_string(&case).unwrap_or_default());
+        }
+        let t_case = Instant::now();
         let r = run_checked(check, &case, &mut c);
+        if slow_log.is_some() && std::env::var("VERIF_SLOW_PRE").is_ok() {
+            eprintln!("[case-end] {}", serde_json::to_string(&case).unwrap_or_default());
+        }
+        if let Some(ms) = slow_log {
+            if t_case.elapsed().as_millis() > ms {
+                eprintln!("[slow case {} ms] {}", t_case.elapsed().as_millis(), serde_json::to_string(&case).unwrap_or_default());
+            }
+        }
         match r {
             Ok(()) => {
                 if !c.frozen && c.samples.len() < c.sample_budget {
